@@ -31,7 +31,7 @@ WRITERS = [
 
 def find_ir(ctx, unit, pat):
     m = ctx.ir(unit)
-    P = ctx.program()
+    P = ctx.program_of(unit)
     for f in m.functions.values():
         if re.search(pat, P.dm(f.name)):
             return f
@@ -40,7 +40,7 @@ def find_ir(ctx, unit, pat):
 
 def writer_obligations(ctx, rule_dom, rule_fail, unit, pat, bi, li, sizer, null_ok):
     fn = find_ir(ctx, unit, pat)
-    P = ctx.program()
+    P = ctx.program_of(unit)
     name = P.dm(fn.name).split("(")[0]
     bslot = G.param_slot(fn, bi)
     lslot = G.param_slot(fn, li)
